@@ -15,6 +15,9 @@ Definition wf_step (s : sys) (o : op) : Prop :=
   | OAppend r payload pc h =>
       forall l e, nth_error (s_logs s) r = Some l -> append_entry l payload pc h = Some e ->
                   forall a, In a (s_univ s) -> e_hash a = h -> a = e
+  | OAppendFail r payload pc h =>
+      forall l e, nth_error (s_logs s) r = Some l -> append_entry l payload pc h = Some e ->
+                  forall a, In a (s_univ s) -> e_hash a = h -> a = e
   | OJoin _ _ size => size < 0
   | _ => True
   end.
@@ -75,7 +78,7 @@ Qed.
 
 Theorem sinv_step s o : sinv s -> wf_step s o -> sinv (fst (step s o)).
 Proof.
-  intros [UO IL] W. destruct o as [id key sf deny|r payload pc h|r src size|r key|r mh|r io]; cbn [step].
+  intros [UO IL] W. destruct o as [id key sf deny|r payload pc h|r src size|r key|r mh|r io|r payload pc h|r]; cbn [step].
   - (* ONew *)
     split; [exact UO|]. cbn [fst s_logs s_univ]. intros r l H.
     destruct (Nat.lt_ge_cases r (length (s_logs s))) as [Hl|Hl].
@@ -119,6 +122,19 @@ Proof.
   - (* OIter *)
     destruct (nth_error (s_logs s) r) as [l|] eqn:L; [|split; auto].
     destruct (iterator l io) as [[es c]| |]; split; auto.
+  - (* OAppendFail *)
+    destruct (nth_error (s_logs s) r) as [l|] eqn:L; [|split; auto].
+    specialize (IL r l L) as Il.
+    destruct (append_entry l payload pc h) as [e|] eqn:AE; cbn [fst]; [|split; auto].
+    assert (HC : forall a, In a (s_univ s) -> e_hash a = h -> a = e) by (intros; eapply W; eauto).
+    pose proof (univ_ok_append _ _ _ _ _ _ UO Il AE HC) as UO'.
+    split; [exact UO'|]. cbn [fst s_logs s_univ]. intros r' l' H. rewrite nth_error_set_nth, L in H.
+    destruct (Nat.eqb r r').
+    + injection H as <-. apply linv_mono_U. apply (linv_clock _ l); auto.
+      pose proof (ae_time_gt_clock l payload pc h e AE). lia.
+    + apply linv_mono_U. eauto.
+  - (* OFail *)
+    split; auto.
 Qed.
 
 Theorem sinv_run_from ops : forall s, sinv s -> wf_from s ops -> sinv (run_from s ops).
